@@ -337,16 +337,17 @@ def st_case(draw):
                  "start": g["start"], "terms": [mp.get(t, t) for t in g["terms"]]}
     G = gk.Grammar(g["prods"], g["start"], set(g["terms"]))
     inputs = draw(st_inputs(G, g, draw(st.integers(3, 8)), max_tokens=10, multiline=False))
-    return {"g": g, "dom": dom, "pool": draw(st.integers(0, 3)), "perm": draw(st.permutations(list(range(6)))),
+    return {"g": g, "dom": dom, "pool": draw(st.integers(0, 4)), "perm": draw(st.permutations(list(range(6)))),
             "syn": draw(st.booleans()), "kw": False, "inputs": inputs,
-            "exhaustive": 5 if len(g["terms"]) <= 3 else 4 if len(g["terms"]) == 4 else 3,
+            "exhaustive": ((5 if draw(st.integers(0, 3)) == 0 else 4) if len(g["terms"]) <= 3 else
+                           (4 if draw(st.integers(0, 3)) == 0 else 3) if len(g["terms"]) == 4 else 3),
             "decl": draw(st.sampled_from([None, "bottomup", "bottomup", "shuffle"]).flatmap(
                 lambda d: st.lists(st.integers(0, 9), min_size=6, max_size=6) if d == "shuffle" else st.just(d)))}
 
 
 def parts(tier):
-    k = 1 if tier == "quick" else 40
-    return [Part("grammars", evaluate, strategy=st_case, examples=1200 * k)]
+    k = 1 if tier == "quick" else 25
+    return [Part("grammars", evaluate, strategy=st_case, examples=3200 * k)]
 
 
 TECHNIQUE = "differential property-based testing (Hypothesis): parser vs independent chart recogniser and own LL(1) predictive parser; exhaustive enumeration of all short token strings per generated grammar"
